@@ -181,11 +181,14 @@ Section Leaf.
     classify tok rest = tok_or_err (py_float tok) (fun t => VFloat (FTok t)) rest.
   Proof.
     intro G. destruct (repr_grammar_shape tok G) as (sg & Hs & [(ip & fp & E & Hi & Df)|(d0 & fr & es & ds & E & Hd & Hf & Hes & Dd)]).
-    - pose proof (classify_noexp py_float py_dec py_imag sg ip (46 :: fp) [] rest Hs Hi
-                    (or_intror (ex_intro _ fp (conj eq_refl Df))) (or_introl eq_refl) (or_introl ltac:(discriminate))) as C.
+    - assert (Hf : is_frac (46 :: fp)) by (right; exists fp; auto).
+      assert (Hx : is_sfx []) by (left; reflexivity).
+      assert (Hne : 46 :: fp <> [] \/ (@nil N) <> []) by (left; discriminate).
+      pose proof (classify_noexp py_float py_dec py_imag sg ip (46 :: fp) [] rest Hs Hi Hf Hx Hne) as C.
       rewrite app_nil_r in C. rewrite E. exact C.
-    - pose proof (classify_exp py_float py_dec py_imag sg d0 fr 101 es ds [] rest Hs Hd Hf (or_introl eq_refl) Hes Dd
-                    (or_introl eq_refl)) as C.
+    - assert (He : is_E 101) by (left; reflexivity).
+      assert (Hx : is_sfx []) by (left; reflexivity).
+      pose proof (classify_exp py_float py_dec py_imag sg d0 fr 101 es ds [] rest Hs Hd Hf He Hes Dd Hx) as C.
       rewrite app_nil_r in C. rewrite E. exact C.
   Qed.
 
@@ -206,10 +209,12 @@ Section Leaf.
     classify (tok ++ [77]) rest = tok_or_err (py_dec tok) VDec rest.
   Proof.
     intro G. destruct (dec_grammar_shape tok G) as (sg & Hs & [(ip & fr & E & Hi & Hf)|(d0 & fr & es & ds & E & Hd & Hf & Hes & Dd)]).
-    - rewrite E. apply (classify_noexp py_float py_dec py_imag sg ip fr [77] rest Hs Hi Hf (or_intror eq_refl)).
-      right. discriminate.
-    - rewrite E. apply (classify_exp py_float py_dec py_imag sg d0 fr 69 es ds [77] rest Hs Hd Hf (or_intror eq_refl) Hes Dd
-                          (or_intror eq_refl)).
+    - assert (Hx : is_sfx [77]) by (right; reflexivity).
+      assert (Hne : fr <> [] \/ [77] <> []) by (right; discriminate).
+      rewrite E. exact (classify_noexp py_float py_dec py_imag sg ip fr [77] rest Hs Hi Hf Hx Hne).
+    - assert (He : is_E 69) by (right; reflexivity).
+      assert (Hx : is_sfx [77]) by (right; reflexivity).
+      rewrite E. exact (classify_exp py_float py_dec py_imag sg d0 fr 69 es ds [77] rest Hs Hd Hf He Hes Dd Hx).
   Qed.
 
   Lemma scan_ok_M tok : scan_ok tok = true -> (forall t, tok <> t ++ [45]) -> scan_ok (tok ++ [77]) = true.
